@@ -956,9 +956,10 @@ def m_map_extend(ex, site, a):
     return unit()
 
 
-@model(rx(r'^(BTreeMap|HashMap)::retain$'))
+@model(rx(r'^(BTreeMap|HashMap|DashMap)::retain$'))
 def m_map_retain(ex, site, a):
     items, ty = map_items(ex, a[0]); keep = []
+    if ty == 'DashMap': dash_write(ex, items, 'retain')
     for kv in items:
         if ex.branch(ex.call_value(a[1], [Ptr(Cell(kv), (0,)), Ptr(Cell(kv), (1,))])): keep.append(kv)
     items[:] = keep; return unit()
